@@ -189,6 +189,15 @@ class Program:
                         for t in b.targets:
                             if isinstance(t, ast.Name):
                                 ci.class_attrs[t.id] = b.value
+                                v = b.value
+                                if isinstance(v, ast.Call) and isinstance(v.func, ast.Name) and v.func.id == "staticmethod" and len(v.args) == 1 \
+                                        and not v.keywords and isinstance(v.args[0], ast.Name) and v.args[0].id in mi.functions:
+                                    # name = staticmethod(<module-level function defined above>): a static method with that body
+                                    fi = FuncInfo(mi.functions[v.args[0].id].node, mi, ci)
+                                    fi.name = t.id
+                                    fi.is_static = True
+                                    self._scan_nested(fi)
+                                    ci.methods[t.id] = fi
             elif isinstance(st, ast.FunctionDef):
                 fi = FuncInfo(st, mi)
                 self._scan_nested(fi)
